@@ -39,7 +39,7 @@ def family_signature(prog, f, depth=0):
 
 def run(ctx, rep):
     prog = ctx.program("default")
-    rep.configs.append("default")
+    rep.configs.append(getattr(ctx, "alias", "default"))
     # ---- R16.1 duplicate public definitions of one contract agree ----------------------------------------
     pairs = [
         ("contains", prog.method1(RECT, "contains", None), prog.method1(RECT, "contains", "embedded_graphics::primitives::ContainsPoint")),
